@@ -973,7 +973,7 @@ class Handle:
             outs = self.csx.compute(vec, outs=outs, havoc=havoc)
             self.last_frame = [(n, idx) for n in self.in_names for idx in np.ndindex(*self.shape[n])
                                if vec[n][idx] is not before[n][idx] and not S.iszero(vec[n][idx] - before[n][idx])]
-            if self.first_call is None:
+            if self.first_call is None and not S.PATH.mute:          # a muted evaluation took default branches unrecorded
                 self.first_call = (ins, {k: np.array(v, dtype=object) for k, v in outs.items()}, list(S.PATH.outer_taken) + list(S.PATH.taken))
             return {k: np.array(v, dtype=object).view(S.SymArray) for k, v in outs.items()}
         vals = self._native_inputs(ins)
